@@ -398,8 +398,8 @@ def rule_tomb_escape_point(ctx):
                                 tt = strip_cast(t)
                                 # `X.find(k) == X.end()` / `std::find(..) == X.end()` true, `count == 0` true, `!contains` ...: accepted when
                                 # the comparison is the usual "not found" spelling; other spellings stay undecided
-                                if lab is True and tt[0] == 'op' and tt[1] == '==' and nm == 'find':
-                                    shadow = True
+                                if tt[0] == 'op' and tt[1] in ('==', '!=') and nm == 'find' and (lab is True) == (tt[1] == '=='):
+                                    shadow = True      # `find(k) == end()` taken true, or `find(k) != end()` taken false (early continue)
                                 elif nm == 'binary_search' and not _sorted_collection(f, s_, colls):
                                     # a binary search needs a sorted range; appends made from different iterations of the level loop
                                     # are not in key order and nothing sorts the collection before it is searched
